@@ -197,7 +197,66 @@ def replay_beta(args):
     return False, "beta0 follows nf"
 
 
-REPLAYERS = {"taggedff": replay_taggedff, "tagged": replay_tagged, "nf": replay_nf, "svnf": replay_svnf, "beta": replay_beta}
+CENSUS_CELLS = [(proc, pid, obs, sch) for proc, pid in (("EM", 11), ("NC", 11), ("CC", 11), ("CC", -12))
+                for obs in ("F2_total", "F3_total", "FL_light") for sch in ("ZM-VFNS", "FFNS") if not (proc == "EM" and obs.startswith("F3"))]
+
+
+def census_kernels(P, Q2, proc, pid, obs, sch, nf, pto=1):
+    """massless ('light') kernels of the real Combiner for a configuration whose number of active flavours is nf"""
+    ks = cm.run_combiner(P, obs=obs, process=proc, pid=pid, Q2=Q2, scheme=sch, nf=nf, ZMq=(sch == "ZM-VFNS",) * 3, pto=pto)
+    return [k for k in ks if ".light." in type(k.coeff).__module__]
+
+
+def replay_census(args):
+    with cm.fixed_nf():
+        ks = census_kernels(cm.ew_params(values=args["params"]), args["params"]["Q2"], args["proc"], args["pid"], args["obs"], args["sch"], args["nf"])
+    got = sorted({abs(p) for k in ks for p, w in k.partons.items() if p != 21 and float(w) != 0.0})
+    want = list(range(1, args["nf"] + 1))
+    if ks and got != want:
+        return True, f"{args['proc']}/{args['pid']} {args['obs']} {args['sch']} with nf={args['nf']}: massless coefficient functions are fed by quarks {got}, the active ones are {want}"
+    return False, f"quarks {got}"
+
+
+def cc_census_pairs(P, Q2, pid, obs, sch, nf):
+    """[(label, non-singlet weight of parton p summed over the massless kernels, 2 * sum of |V|^2 over the ACTIVE partners)] -- charged current.
+    W- (electron / antineutrino beams) is absorbed by up-type quarks and down-type antiquarks, W+ by the others; xF3 weights carry sign(p)."""
+    ks = [k for k in census_kernels(P, Q2, "CC", pid, obs, sch, nf) if type(k.coeff).__name__.startswith("NonSinglet")]
+    if not ks:
+        raise AssertionError(f"no massless non-singlet kernel for CC {obs} nf={nf}")
+    names = {1: "d", 2: "u", 3: "s", 4: "c", 5: "b", 6: "t"}
+    wminus = pid in (11, -12)
+    out = []
+    for p in [q * s_ for q in range(1, 7) for s_ in (1, -1)]:
+        q = abs(p)
+        got = 0
+        for k in ks:
+            got = got + k.partons.get(p, 0)
+        up = q % 2 == 0
+        couples = q <= nf and ((up == (p > 0)) if wminus else (up != (p > 0)))
+        ref = 0
+        if couples:
+            for q2 in range(1, nf + 1):
+                if (q2 % 2 == 0) != up:
+                    ref = ref + 2 * P["V2_" + (names[q] + names[q2] if up else names[q2] + names[q])]
+            if obs.startswith("F3"):
+                ref = ref * (1 if p > 0 else -1)
+        out.append((f"ns[{p}]", got, ref))
+    return out
+
+
+def replay_cc_census(args):
+    with cm.fixed_nf():
+        prs = cc_census_pairs(cm.ew_params(values=args["params"]), args["params"]["Q2"], args["pid"], args["obs"], args["sch"], args["nf"])
+    bad = harness.float_pairs_differ(prs, args.get("label"))
+    return (True, f"CC/{args['pid']} {args['obs']} {args['sch']} nf={args['nf']}: non-singlet weights are not 2*sum |V|^2 over the active partners: {bad[:3]}") if bad else (False, "holds")
+
+
+def float_pairs_cc_census(args):
+    with cm.fixed_nf():
+        return cc_census_pairs(cm.ew_params(values=args["params"]), args["params"]["Q2"], args["pid"], args["obs"], args["sch"], args["nf"])
+
+
+REPLAYERS = {"cccensus": replay_cc_census, "cccensus:pairs": float_pairs_cc_census, "census": replay_census, "taggedff": replay_taggedff, "tagged": replay_tagged, "nf": replay_nf, "svnf": replay_svnf, "beta": replay_beta}
 
 
 def vals(ctx, model, tag=""):
@@ -343,6 +402,78 @@ def run(chk, only=None):
                         chk.prove(f"beta:{order}:{seq}:nf{nf}:{key_}", S.lift(got.get(key_, 0)).t == S.lift(ref).t, ctx.facts(),
                                   key=f"beta:nf:{key_}", what=f"scale-variation coefficient {key_} is not the beta coefficient of nf={nf} (sequence {seq})",
                                   replay=lambda m, order=order, seq=seq: ("beta", dict(order=order, seq=seq)))
+    # ---- flavour census: the massless coefficient functions are fed by exactly the nf active quarks (every process, nf = 3..6) ----
+    if only in (None, "census"):
+        for (proc, pid, obs, sch), nf in itertools.product(CENSUS_CELLS, [3, 4, 5, 6]):
+            if chk.tier == "quick" and sch == "FFNS" and not (obs == "F2_total" and pid == 11):
+                continue
+            cname = f"census:{proc}:{pid}:{obs}:{sch}:nf={nf}"
+            if not chk.mine(cname):
+                continue
+            with Ctx(chk.seed) as ctx, cm.fixed_nf(), cm.generic_drop_empty(), stubs.cf_stubs():
+                def body():
+                    return census_kernels(cm.ew_params(ctx), ctx.var("Q2", 0, None, wlo=1, whi=20000), proc, pid, obs, sch, nf)
+
+                paths = explore.Explorer(ctx, max_paths=8, timeout_ms=3000).run(body)
+                chk.paths += len(paths)
+                for pi, p in enumerate(paths):
+                    ctx.assign = dict(p.assign)
+                    if p.kind == "exc":
+                        chk.notes.append(f"{cname}: raises {type(p.value).__name__}: {str(p.value)[:80]} (C16)")
+                        continue
+                    if not p.value:
+                        continue
+                    chk.obligations += 1
+                    fed = set()
+                    for k_ in p.value:
+                        for q_, w in k_.partons.items():
+                            if q_ == 21 or abs(q_) in fed:
+                                continue
+                            w = S.lift(w)
+                            if w.const is not None:
+                                nonzero = w.const != 0
+                            elif harness._witness_differs(w, 0):
+                                nonzero = True  # non-zero at the witness point: not identically zero
+                            else:
+                                chk.evaluations += 1
+                                nonzero = chk.prover.prove(w.t == 0, ctx.facts() + p.pc + p.generic, cname).status != "unsat"
+                            if nonzero:
+                                fed.add(abs(q_))
+                    params = {k: float(ctx.assign.get(k, 1)) for k in cm.EW_PARAMS + ["Q2"]}
+                    if fed == set(range(1, nf + 1)):
+                        chk.discharged += 1
+                        chk.nontrivial.add(cname)
+                    else:
+                        chk.report(f"census:{proc}:{obs}:{sch}:{nf}", f"{cname}: massless coefficient functions are fed by quarks {sorted(fed)}, the active ones are 1..{nf}",
+                                   "census", dict(proc=proc, pid=pid, obs=obs, sch=sch, nf=nf, params=params))
+        # charged current: every active quark enters with the CKM elements of its ACTIVE partners only (symbolic CKM matrix)
+        for pid, obs, sch, nf in itertools.product([11, -11, 12, -12], ["F2_total", "F3_total", "FL_total"], ["ZM-VFNS", "FFNS"], [3, 4, 5, 6]):
+            if chk.tier == "quick" and not (pid in (11, -11) and obs != "FL_total" and (sch == "ZM-VFNS" or nf == 4)):
+                continue
+            cname = f"census:CC:{pid}:{obs}:{sch}:nf={nf}:ckm"
+            if not chk.mine(cname):
+                continue
+            with Ctx(chk.seed) as ctx, cm.fixed_nf(), cm.generic_drop_empty(), stubs.cf_stubs():
+                def body():
+                    return cc_census_pairs(cm.ew_params(ctx), ctx.var("Q2", 0, None, wlo=1, whi=20000), pid, obs, sch, nf)
+
+                paths = explore.Explorer(ctx, max_paths=8, timeout_ms=3000).run(body)
+                chk.paths += len(paths)
+                for pi, p in enumerate(paths):
+                    ctx.assign = dict(p.assign)
+                    if p.kind == "exc":
+                        chk.inconclusive_note(f"{cname}: raises {type(p.value).__name__}: {str(p.value)[:80]}")
+                        continue
+
+                    def rp_for(lab, ctx=ctx, pid=pid, obs=obs, sch=sch, nf=nf):
+                        def rp(model):
+                            asg = explore.model_to_assign(ctx, model)
+                            params = {k: float(asg.get(k, ctx.assign.get(k, 1))) for k in cm.EW_PARAMS + ["Q2"]}
+                            return "cccensus", dict(pid=pid, obs=obs, sch=sch, nf=nf, params=params, label=lab)
+                        return rp
+
+                    harness.prove_pairs(chk, cname, p.value, ctx.facts() + p.pc + p.generic, rp_for,
+                                        lambda lab, pid=pid, obs=obs, sch=sch, nf=nf: f"cccensus:{pid}:{obs}:{sch}:{nf}:{lab}")
     # ---- Engine B: update_fns for every int NfFF ----
     if only in (None, "ch"):
         for target in ("yv.ch.h_fns.check_fns", "yv.ch.h_fns.check_unknown_scheme"):
@@ -362,7 +493,10 @@ def run(chk, only=None):
         explanation="The real Runner.__init__ (compatibility.update, eko Atlas, real ESF) and Combiner run on symbolic masses, "
         "threshold ratios and Q2 with np.digitize replaced by its documented meaning; on every feasible path z3 proves "
         "nf == 3 + #{(m k)^2 <= Q2} (ZM-VFNS, equality included), nf == NfFF for FFNS/FFN0/FONLL at every Q2, that the "
-        "scale-variation manager receives the same nf and that kernel lists depend on the thresholds only through nf. CrossHair "
+        "scale-variation manager receives the same nf and that kernel lists depend on the thresholds only through nf. Flavour census: the real "
+        "Combiner on symbolic electroweak parameters and Q2, for EM/NC/CC (both projectile charges) and nf = 3..6 -- the quarks whose weight in the "
+        "massless kernels is not identically zero (constant folding, witness point, else a z3 query) are exactly 1..nf, and in charged current (symbolic CKM matrix, all four beams) z3 proves every non-singlet weight "
+        "equal to 2 * sum of |V|^2 over the ACTIVE partners. CrossHair "
         "confirms over all paths, for an unbounded int NfFF, that update_fns produces exactly clamp(NfFF-3,0,3) zero thresholds "
         "followed by inf ones with the documented massless flags, and that unknown schemes raise ValueError.",
         rule="one obligation per (scheme, NfFF, path) and per CrossHair condition; distinct = (scheme, NfFF) / condition; non-trivial = symbolic path",
